@@ -10,7 +10,7 @@ DEFMARGIN = {"EAN13": 9, "EAN8": 9, "UPCA": 9, "UPCE": 9}
 SYMS = ["EAN13", "EAN8", "UPCA", "UPCE", "C39", "C93", "C128", "ITF", "CBAR"]
 C39PLAIN = [ord(ch) for ch in "0123456789ABCDEFGHIJKLMNOPQRSTUVWXYZ-. $/+%"]
 CBDATA = [ord(ch) for ch in "0123456789-$:/.+"]
-SIZES = [(0, 0, 0), (1, 1, 1), (2, 0, 30), (3, 1, 7), (1, 13, 2), (5, 3, 3)]
+SIZES = [(0, 0, 0), (1, 1, 1), (2, 0, 30), (3, 1, 7), (1, 13, 2), (5, 3, 3), (17, 0, 2), (41, 5, 1)]   # (k, a, height): width = k*natural + a; the last two are very wide images
 RT_KEYS = ("op", "sym", "c", "force", "wk", "wa", "h", "margin", "rd", "werr", "w", "hh", "lead", "trail", "err", "text", "fmt", "panic")
 
 
@@ -266,7 +266,7 @@ def run(ctx):
         ctx,
         rule="one case = one write->read round trip (symbology, content, forced code set, requested size, margin, reader), one "
              "reference-encoded symbol read by a real reader, or one block of consecutive payloads (each payload an evaluation)",
-        assumptions=["sizes are a grid (width 0, natural+1, 2x, 3x+1, natural+13, 5x+3; heights 0..30), margins default and "
+        assumptions=["sizes are a grid (width 0, natural+1, 2x, 3x+1, natural+13, 5x+3, 17x, 41x+5; heights 0..30), margins default and "
                      "default+7; not every width/height/margin",
                      "Code 39 contents made only of the 43-character alphabet are read with the plain reader, all others with "
                      "the extended-mode reader",
